@@ -591,3 +591,20 @@ package starlark
 //@ func hashtable.delete
 //@   prop C12
 //@   assert /return None, false, nil .. not found/ whole_chain_scanned: p == nil
+
+// ---- determinism (C03): listings derived from Go maps are sorted before they are exposed;
+// the deterministic hash() builtin and ordered iteration do not depend on the per-process seed.
+//@ func builtinAttrNames
+//@   prop C03
+//@   ensures sorted(result)
+//@ func StringDict.Keys
+//@   prop C03
+//@   ensures sorted(result)
+//@ func dir
+//@   prop C03
+//@   assert /elems := make\(\[\]Value, len\(names\)\)/ listing_sorted: sorted(names)
+//@ reads_not [C03] hash : hashString, seed, hash/maphash.*
+//@ reads_not [C03] hashtable.keys : hashString, seed, hash/maphash.*
+//@ reads_not [C03] hashtable.items : hashString, seed, hash/maphash.*
+//@ reads_not [C03] keyIterator.Next : hashString, seed, hash/maphash.*
+//@ reads_not [C03] hashtable.first : hashString, seed, hash/maphash.*
